@@ -313,4 +313,91 @@ theorem fields_of_wall (l : Int) (hl : inRange l = true) :
     simp only [Fields.cInts, cInt, Bool.and_eq_true, decide_eq_true_eq]
     omega
 
+/-! ## what this means for the yaql functions -/
+
+/-- **constructor and field readers.** `datetime(y, m, d, h, mi, s, us, offset)` with valid fields is the value
+    whose wall clock is inside year 1..9999 and whose field properties read the arguments back; an argument
+    beyond a C int is an OverflowError, any other invalid field a ValueError. -/
+theorem build_fields (f : Fields) (o : Int) :
+    (f.cInts = true → f.valid = true →
+        buildDatetime f o = .ok ⟨localOf f, some o⟩ ∧ inRange (localOf f) = true ∧ fieldsOf (localOf f) = f) ∧
+    (f.cInts = false → buildDatetime f o = .error .overflowError) ∧
+    (f.cInts = true → f.valid = false → buildDatetime f o = .error .valueError) ∧
+    (∀ d, buildDatetime f o = .ok d →
+        d.wf ∧ d.off = some o ∧ dtYear d = f.year ∧ dtMonth d = f.month ∧ dtDay d = f.day ∧ dtHour d = f.hour ∧
+        dtMinute d = f.minute ∧ dtSecond d = f.second ∧ dtMicrosecond d = f.micro) := by
+  refine ⟨?_, ?_, ?_, ?_⟩
+  · intro hc hv
+    obtain ⟨h1, h2⟩ := fields_roundtrip f hv
+    exact ⟨by simp [buildDatetime, pyDatetime, hc, hv, getTz_some], h2, h1⟩
+  · intro hc; simp [buildDatetime, pyDatetime, hc]
+  · intro hc hv; simp [buildDatetime, pyDatetime, hc, hv]
+  · intro d h
+    by_cases hc : f.cInts = true
+    · by_cases hv : f.valid = true
+      · obtain ⟨h1, h2⟩ := fields_roundtrip f hv
+        simp [buildDatetime, pyDatetime, hc, hv, getTz_some] at h
+        subst h
+        refine ⟨(wf_iff _).2 h2, rfl, ?_⟩
+        simp [dtYear, dtMonth, dtDay, dtHour, dtMinute, dtSecond, dtMicrosecond, h1]
+      · simp [buildDatetime, pyDatetime, hc, hv] at h
+    · simp [buildDatetime, pyDatetime, hc] at h
+
+/-- the date part of an existing wall clock: the constructor accepts the fields and gives midnight of that day -/
+theorem date_fields (l : Int) (off : Option Int) (hl : inRange l = true) :
+    pyDatetime (⟨(fieldsOf l).year, (fieldsOf l).month, (fieldsOf l).day, 0, 0, 0, 0⟩ : Fields) off = .ok ⟨l - l % 86400000000, off⟩ := by
+  obtain ⟨hv, hlo, hc⟩ := fields_of_wall l hl
+  obtain ⟨hy, hm, hd, hh, hmi, hs, hus⟩ := (valid_iff _).1 hv
+  have hv' : Fields.valid (⟨(fieldsOf l).year, (fieldsOf l).month, (fieldsOf l).day, 0, 0, 0, 0⟩ : Fields) = true := by
+    rw [valid_iff]; exact ⟨hy, hm, hd, by dsimp only; omega, by dsimp only; omega, by dsimp only; omega, by dsimp only; omega⟩
+  have hc' : Fields.cInts (⟨(fieldsOf l).year, (fieldsOf l).month, (fieldsOf l).day, 0, 0, 0, 0⟩ : Fields) = true := by
+    simp only [Fields.cInts, Bool.and_eq_true] at hc ⊢
+    refine ⟨⟨⟨⟨⟨⟨hc.1.1.1.1.1.1, hc.1.1.1.1.1.2⟩, hc.1.1.1.1.2⟩, by decide⟩, by decide⟩, by decide⟩, by decide⟩
+  have ht : (fieldsOf l).hour * 3600000000 + (fieldsOf l).minute * 60000000 + (fieldsOf l).second * 1000000 +
+      (fieldsOf l).micro = l % 86400000000 := by
+    simp only [fieldsOf, usPerDay, usPerHour, usPerMin, usPerSec]
+    omega
+  simp only [pyDatetime, hv', hc', Bool.not_true, Bool.false_eq_true, if_false]
+  congr 2
+  simp only [localOf, usPerDay, usPerHour, usPerMin, usPerSec] at hlo ⊢
+  omega
+
+/-- **`.date` and `.time` split a value**: `d.date` is midnight of `d`'s day at `d`'s offset, `d.time` the
+    rest of the day, and `d.date + d.time = d` -/
+theorem date_time_split (d : DT) (hd : d.wf) :
+    ∃ d0 t, dtDate .conv d = .ok d0 ∧ dtTime .conv d = .ok t ∧
+      d0.wall + t = d.wall ∧ 0 ≤ t ∧ t < 86400000000 ∧ d0.wall % 86400000000 = 0 ∧
+      d0.off = (asUtc d).off ∧ dtPlusTs .conv d0 t = .ok (asUtc d) := by
+  have hl := (wf_iff d).1 hd
+  have hdate : ∀ c, dtDate c (asUtc d) = .ok ⟨d.wall - d.wall % 86400000000, (asUtc d).off⟩ := by
+    intro c
+    unfold dtDate
+    rw [convert_asUtc]
+    simp only [asUtc_wall]
+    exact date_fields d.wall _ hl
+  refine ⟨⟨d.wall - d.wall % 86400000000, (asUtc d).off⟩, d.wall % 86400000000, ?_, ?_, by dsimp only; omega, by omega, by omega,
+    by dsimp only; omega, rfl, ?_⟩
+  · have := hdate .conv
+    unfold dtDate at this ⊢
+    rw [convert_asUtc] at this
+    exact this
+  · unfold dtTime
+    rw [convert_conv, hdate .bare]
+    simp [pySubDt, asUtc_eta]
+    omega
+  · rw [plus_eq]
+    have : d.wall - d.wall % 86400000000 + d.wall % 86400000000 = d.wall := by omega
+    simp only [this, asUtc_eta, Option.getD_some]
+    exact mkLocal_ok hl
+
+/-- `replace` without arguments is the identity (on the value tagged UTC), replacing only the offset keeps
+    the wall clock -/
+theorem replace_keeps (d : DT) (hd : d.wf) (o : Int) :
+    dtReplace .conv d none none none none none none none none = .ok (asUtc d) ∧
+    dtReplace .conv d none none none none none none none (some o) = .ok ⟨d.wall, some o⟩ := by
+  have hl := (wf_iff d).1 hd
+  obtain ⟨hv, hlo, hc⟩ := fields_of_wall d.wall hl
+  constructor <;>
+    simp [dtReplace, pyReplace, convert_conv, asUtc_wall, pyDatetime, hv, hc, hlo, getTz_some, asUtc_eta]
+
 end Yaql.Props.C20Cal
